@@ -102,7 +102,7 @@ def check_1to1(rep, prog, W):
 
 def check_fifo(rep, prog):
     rep.rule('R-fifo', 'every UPIPE_HELPER_INPUT instantiation: hold_input appends at the tail (ulist_add) and increments NB_UREFS; pop_input / '
-             'output_input take from the head (ulist_pop) and decrement; a failed output re-inserts at the head (unshift) and returns; '
+             'output_input take from the head (ulist_pop) and decrement; a failed output re-inserts at the head (unshift) and returns; flush_input frees what is held unless the list is empty (check_input), whatever the blocking threshold; '
              'in every function of the pipe that calls the handler directly (the input function, control functions) the call is under X_check_input() or after X_output_input() (held buffers go first)')
     inputs = ownrule.input_functions(prog)
     handlers = ownrule.handler_functions(prog)
@@ -110,7 +110,7 @@ def check_fifo(rep, prog):
         insts = {}
         for fn in u.funcs.values():
             if fn.macro == 'UPIPE_HELPER_INPUT':
-                m = re.match(r'(.+)_(hold_input|pop_input|unshift_input|output_input|check_input)$', fn.name)
+                m = re.match(r'(.+)_(hold_input|pop_input|unshift_input|output_input|check_input|flush_input)$', fn.name)
                 if m:
                     insts.setdefault(m.group(1), {})[m.group(2)] = fn
         for P, fs in sorted(insts.items()):
@@ -148,6 +148,21 @@ def check_fifo(rep, prog):
                     why.append('output_input must put a refused uref back with unshift_input')
                 elif pr.never_after(ev, uns, pr.m_call('ulist_pop')):
                     why.append('output_input keeps popping after a refused uref was put back')
+            f = fs.get('flush_input')
+            if f:
+                ev = pr.Events(f)
+                # "nothing to flush" is decided by the list being empty (check_input), not by the blocking threshold: with a
+                # max length > 0 up to that many buffers are held without blocking, and a flush must free them too
+                def empty(ctree, pol, f=f, P=P):
+                    n_, neg = strip_expect(f.resolve(ctree))
+                    return isinstance(n_, dict) and n_.get('k') == 'call' and n_.get('fn') == P + '_check_input' and pol != neg
+                cleans = ev.find(pr.m_call(r'\w+_clean_input'))
+                if not cleans:
+                    why.append('flush_input must free what is held (clean_input)')
+                for r_ in ev.find(pr.m_return()):
+                    hits_, _ = ev.reach(None, lambda n_, r_=r_: n_ is r_[2], pr.m_call(r'\w+_clean_input'), from_entry=True)
+                    if hits_ and not pr.control_dependent(f, ev, r_, empty):
+                        why.append('flush_input returns without freeing the held buffers on a path that has not found the list empty (check_input)')
             if why:
                 rep.add('R-fifo', P + ':helper', VIOLATED, (fs.get('hold_input') or list(fs.values())[0]).loc, what='; '.join(why))
             else:
